@@ -54,6 +54,14 @@ fn main() {
             }
         }
         Some("explore") if args.len() >= 4 => explore(&args[1..]),
+        Some("crashprobe") if args.len() >= 4 => {
+            // re-executes one seed while announcing the operation in progress (crash attribution)
+            util::enable_crashprobe();
+            let eng = runner::engine(&args[1]);
+            let _ = eng.run_seed(&args[2], args[3].parse().unwrap_or(0), "", false);
+            println!("E done");
+            0
+        }
         Some("twinhash") if args.len() >= 3 => {
             let (t, _, _) = twin::transcript(&args[1], args[2].parse().unwrap_or(0));
             println!("{}", t);
